@@ -57,14 +57,20 @@ PureOK(ev) == ("kid" \in DOMAIN ev /\ ev.kid \in DOMAIN seen) =>
 
 Diag(ev) ==
   LET syn == Syntax(ev.e, ev.chars) IN
-  [claim |-> ClaimOK(ev, syn), status |-> StatusOK(ev, syn), ticks |-> TicksOK(ev) /\ StepsOK(ev, syn),
+  [failed |-> TLCGet(7),      \* the conjunct of EventOK that was being evaluated when the event was refused
+   claim |-> ClaimOK(ev, syn), status |-> StatusOK(ev, syn), ticks |-> TicksOK(ev) /\ StepsOK(ev, syn),
    parse_steps |-> IF LexOk(syn.toks) THEN ParseSt(KindsOf(syn.toks)).st ELSE -1,
-   eval_nodes |-> IF syn.v = "accept" THEN EvalNodes(syn.tree) ELSE -1, value |-> ValueOK(ev, syn), pure |-> PureOK(ev),
+   eval_nodes |-> IF syn.v = "accept" THEN EvalNodes(syn.tree) ELSE -1, value |-> ValueOK(ev, syn), pure |-> TLCGet(7) # "pure",
    verdict |-> syn.v, rule |-> syn.rule, kinds |-> KindsOf(syn.toks), expected |-> Value(ev.e, syn, PhOf(ev))]
 
 EventOK(ev) ==
   LET syn == Syntax(ev.e, ev.chars) IN
-  ClaimOK(ev, syn) /\ StatusOK(ev, syn) /\ TicksOK(ev) /\ StepsOK(ev, syn) /\ ValueOK(ev, syn) /\ PureOK(ev)
+  /\ TLCSet(7, "claim")  /\ ClaimOK(ev, syn)
+  /\ TLCSet(7, "status") /\ StatusOK(ev, syn)
+  /\ TLCSet(7, "ticks")  /\ TicksOK(ev) /\ StepsOK(ev, syn)
+  /\ TLCSet(7, "value")  /\ ValueOK(ev, syn)
+  /\ TLCSet(7, "pure")   /\ PureOK(ev)
+  /\ TLCSet(7, "none")
 
 \* counters (TLC registers; the trace spec runs with one worker): what was actually decided
 Count(ev) ==
@@ -76,7 +82,7 @@ Count(ev) ==
   /\ TLCSet(5, TLCGet(5) + (IF syn.v = "unspec" THEN 1 ELSE 0))
   /\ TLCSet(6, TLCGet(6) + (IF HasClaim(ev) THEN 1 ELSE 0))
 
-TInit == l = 1 /\ seen = <<>> /\ \A i \in 1..6 : TLCSet(i, 0)
+TInit == l = 1 /\ seen = <<>> /\ (\A i \in 1..6 : TLCSet(i, 0)) /\ TLCSet(7, "none")
 TCall == /\ l <= Len(Rec)
          /\ Rec[l].ev = "Call"
          /\ EventOK(Rec[l])
